@@ -3,11 +3,15 @@ CHECKS["C20"] = dict(
     units=[unit("c20", "./verifx/c20", "^TestC20", shards=(8, 16))],
     rule=("Exhaustive: every cluster size n in 1..1,000,000 (each n is one distinct case; f is recomputed by search, "
           "not by the formula under test) for NumFaulty/QuorumSize: 2q-n>=f+1, q<=n-f, q-1 fails the first; "
-          "RuntimeConfig.QuorumSize for n in 1..200; boundary certificates (QC, TC, AggQC) carrying q-1, q and n distinct "
+          "RuntimeConfig.QuorumSize for n in 1..200, queried after every AddReplica while the membership grows; boundary certificates (QC, TC, AggQC) carrying q-1, q and n distinct "
           "valid signatures for n in 1..13 and the three schemes, verified by another replica; collector thresholds "
           "(timeout collector, vote collector, Kauri) are exercised at q-1/q for n in {4,7} by the C08/C09 harness units. "
-          "Every case is non-trivial; distinct = distinct n / distinct (scheme,n,kind,k)."),
-    all_exhaustive=True,
+          "Sampled (TestC20ConfigHistory): histories of up to 30 AddReplica (new and known ids out of 13) / ReplicaCount / QuorumSize "
+          "operations and timeout-certificate checks with q-1 and q signatures through an Authority that shares the configuration: "
+          "the threshold in use is always the one of the membership configured so far. "
+          "Every enumerated case is non-trivial; distinct = distinct n / distinct (scheme,n,kind,k); a history is non-trivial when the "
+          "threshold was consulted while the membership was still changing."),
+    all_exhaustive=False,
     assumptions=["Go integer and float64 arithmetic as implemented by the toolchain",
                  "for n beyond 1,000,000 the three-line algebraic argument in DESIGN.md (prose, not machine-checked)"],
 )
